@@ -3,7 +3,7 @@
    stdout: one line per block
      SEQ <k> <mode> core=<v> deep=<v> deeptie=<v>      v = ok | <first disagreement, no spaces>
    Per sort mode the verdict covers: (raw modes) every operation of the trace replayed with [step] gives the
-   identity the implementation returned, the model's final symbols and nodes equal the final dump; (all
+   identity the implementation returned and appends exactly the terms the implementation created (NEW lines), the model's final symbols and nodes equal the final dump; (all
    modes) replaying the final dump node by node through [mkFun] reproduces it exactly (the dump is a
    reachable model store) and the extracted checker [hc_check] accepts the dump. *)
 open Hashcons_model
@@ -28,18 +28,19 @@ let parse_node toks =
   | i :: s :: args -> { nid = int_of_string i; nsym = int_of_string s; nargs = List.map int_of_string args }
   | _ -> failwith "bad NODE"
 
-type opline =
+type opkind =
   | LVar of symline * string
   | LFun of int * int list * string
   | LDist of int * int list * string
   | LOther
+type opline = { kind : opkind; created : nodeline list }   (* the NEW lines of the operation *)
 
 type block = {
   mode : string; dm : int;
   isyms : symline list; inodes : nodeline list;
   ops : opline list;
   fsyms : symline list; fnodes : nodeline list;
-  order_ok : bool; crashed : string option }
+  order_ok : bool; reissue_ok : bool; crashed : string option }
 
 exception Mismatch of string
 let fail fmt = Printf.ksprintf (fun s -> raise (Mismatch (String.map (fun c -> if c = ' ' then '_' else c) s))) fmt
@@ -76,27 +77,42 @@ let verdict m blk =
   try
     (match blk.crashed with Some e -> fail "harness crashed: %s" e | None -> ());
     if not blk.order_ok then fail "ids/PTRefs not monotone";
+    if not blk.reissue_ok then fail "re-issuing the sequence allocated or returned another term (model: same_term_same_id leaves the store unchanged)";
     let raw = String.length blk.mode >= 3 && String.sub blk.mode 0 3 = "raw" in
     if raw then begin
       let s = declare_all m (empty_store (nat_of_int blk.dm)) blk.isyms in
       let s = mk_all m s blk.inodes in
       let k = ref 0 in
+      (* the terms an operation created must be exactly the nodes the model appended *)
+      let same_new s s' (o : opline) =
+        let n0 = List.length s.nodes in
+        let added = List.filteri (fun i _ -> i >= n0) s'.nodes in
+        let impl = List.map (fun n -> (n.nid, n.nsym, n.nargs)) o.created in
+        let mdl = List.mapi (fun i n -> (n0 + i, int_of_nat n.n_sym, List.map int_of_nat n.n_args)) added in
+        if impl <> mdl then fail "op %d: implementation created %d term(s), model %d (or different ones)" !k (List.length impl) (List.length mdl) in
       let s = List.fold_left (fun s o ->
           incr k;
-          match o with
+          match o.kind with
           | LOther -> s
           | LVar (y, res) ->
             let s', r = step m s (OpMkVar (chars y.name, nat_of_int y.sg, y.info)) in
             if show_res r <> res then fail "op %d mkVar %s: model %s implementation %s" !k y.name (show_res r) res;
-            s'
+            same_new s s' o; s'
           | LFun (f, args, res) ->
             let s', r = step m s (OpMkFun (nat_of_int f, nl args)) in
             if show_res r <> res then fail "op %d mkFun sym %d: model %s implementation %s" !k f (show_res r) res;
-            s'
+            same_new s s' o; s'
           | LDist (f, args, res) ->
             let s', r = step m s (OpMkDistinct (nat_of_int f, nl args)) in
             if show_res r <> res then fail "op %d mkDistinct: model %s implementation %s" !k (show_res r) res;
-            s') s blk.ops in
+            if r = RSimp && o.created <> [] then begin
+              (* no distinction class left: the implementation writes the pairwise expansion with the simplifying
+                 constructors (not modelled).  The model says: no node of the distinct symbol is created; whatever
+                 else was built must be new nodes in the model's sense, with the same identities. *)
+              if List.exists (fun n -> n.nsym = f) o.created then
+                fail "op %d mkDistinct: model creates no term of symbol %d (simplified/expanded), implementation allocated one" !k f;
+              mk_all m s' o.created
+            end else (same_new s s' o; s')) s blk.ops in
       compare_final s blk
     end;
     (* the dump is a reachable store of the model *)
@@ -117,11 +133,12 @@ let parse_op toks =
   let rec cut acc = function "->" :: r -> (List.rev acc, r) | x :: r -> cut (x :: acc) r | [] -> (List.rev acc, []) in
   let lhs, rhs = cut [] toks in
   let res = match rhs with "simp" :: _ -> "simp" | [x] -> x | _ -> "?" in
-  match lhs with
+  let kind = match lhs with
   | "V" :: r -> LVar (parse_sym r, res)
   | "F" :: f :: args -> LFun (int_of_string f, List.map int_of_string args, res)
   | "D" :: f :: args -> LDist (int_of_string f, List.map int_of_string args, res)
-  | _ -> LOther
+  | _ -> LOther in
+  { kind; created = [] }
 
 let () =
   let k = ref 0 in
@@ -131,7 +148,7 @@ let () =
       let l = input_line stdin in
       match split l with
       | "BEGIN" :: mode :: dm :: _ ->
-        cur := Some { mode; dm = int_of_string dm; isyms = []; inodes = []; ops = []; fsyms = []; fnodes = []; order_ok = true; crashed = None };
+        cur := Some { mode; dm = int_of_string dm; isyms = []; inodes = []; ops = []; fsyms = []; fnodes = []; order_ok = true; reissue_ok = true; crashed = None };
         phase := 0
       | "SYM" :: r -> (match !cur with Some c ->
           if !phase = 0 then cur := Some { c with isyms = parse_sym r :: c.isyms } else cur := Some { c with fsyms = parse_sym r :: c.fsyms } | None -> ())
@@ -140,9 +157,13 @@ let () =
       | "ORDER" :: v :: _ -> (match !cur with Some c -> if v <> "ok" then cur := Some { c with order_ok = false } | None -> ())
       | "OPS" :: _ -> phase := 1
       | "OP" :: r -> (match !cur with Some c -> cur := Some { c with ops = parse_op r :: c.ops } | None -> ())
+      | "NEW" :: r -> (match !cur with
+          | Some ({ ops = o :: rest; _ } as c) -> cur := Some { c with ops = { o with created = o.created @ [parse_node r] } :: rest }
+          | _ -> ())
+      | "REISSUE" :: v :: _ -> (match !cur with Some c -> if v <> "ok" then cur := Some { c with reissue_ok = false } | None -> ())
       | "FINAL" :: _ -> phase := 2
       | "CRASH" :: r -> (match !cur with Some c -> cur := Some { c with crashed = Some (String.concat "_" r) }
-                                        | None -> cur := Some { mode = "?"; dm = 0; isyms = []; inodes = []; ops = []; fsyms = []; fnodes = []; order_ok = true; crashed = Some (String.concat "_" r) })
+                                        | None -> cur := Some { mode = "?"; dm = 0; isyms = []; inodes = []; ops = []; fsyms = []; fnodes = []; order_ok = true; reissue_ok = true; crashed = Some (String.concat "_" r) })
       | "END" :: _ ->
         (match !cur with
          | Some c ->
